@@ -35,6 +35,7 @@ the real lines):
   N12 a, b = (x, y) -> a = x ; b = y  when no target occurs on the right.
   N13 literal tests: `if True: A else: B` -> A,  `x if False else y` -> y.
   N14 D = {'k': a, ...} used only as D['k'] with names / literals as values -> the values themselves.
+  N15 np.logical_and(A, B) -> A & B, np.logical_or -> |, np.logical_not(A) -> ~A  when A, B are comparisons.
   N3  keyword arguments that name the next positional parameter of a function
       of the repository become positional  (done by Repo once all modules are
       parsed).
@@ -315,6 +316,8 @@ def index_forms(tree):
                         else:
                             setattr(parent, fld, new)
                         n += 1
+    if np_alias:
+        n += logical_functions(tree, np_alias)
     return n
 
 
@@ -652,6 +655,49 @@ def expand_star_tuples(fnode):
             if ok:
                 c.args = new
                 n += 1
+    return n
+
+
+def _boolean_valued(e):
+    """Comparisons and &, |, ~ of comparisons: elementwise boolean whatever the operands are."""
+    if isinstance(e, ast.Compare):
+        return True
+    if isinstance(e, ast.BinOp) and isinstance(e.op, (ast.BitAnd, ast.BitOr)):
+        return _boolean_valued(e.left) and _boolean_valued(e.right)
+    if isinstance(e, ast.UnaryOp) and isinstance(e.op, ast.Invert):
+        return _boolean_valued(e.operand)
+    return False
+
+
+def logical_functions(tree, np_alias):
+    """N15: np.logical_and(A, B) -> A & B, np.logical_or(A, B) -> A | B, np.logical_not(A) -> ~A
+    when A and B are comparisons (or such combinations of comparisons): on booleans they are the same function."""
+    n = 0
+    changed = True
+    while changed:
+        changed = False
+        for parent in ast.walk(tree):
+            for fld, val in ast.iter_fields(parent):
+                items = val if isinstance(val, list) else [val]
+                for j, x in enumerate(items):
+                    if not (isinstance(x, ast.Call) and isinstance(x.func, ast.Attribute) and isinstance(x.func.value, ast.Name)
+                            and x.func.value.id == np_alias and not x.keywords and all(_boolean_valued(a) for a in x.args)):
+                        continue
+                    new = None
+                    if x.func.attr in ("logical_and", "logical_or") and len(x.args) == 2:
+                        new = ast.BinOp(left=x.args[0], op=ast.BitAnd() if x.func.attr == "logical_and" else ast.BitOr(), right=x.args[1])
+                    elif x.func.attr == "logical_not" and len(x.args) == 1:
+                        new = ast.UnaryOp(op=ast.Invert(), operand=x.args[0])
+                    if new is None:
+                        continue
+                    ast.copy_location(new, x)
+                    ast.copy_location(new.op, x)
+                    if isinstance(val, list):
+                        val[j] = new
+                    else:
+                        setattr(parent, fld, new)
+                    n += 1
+                    changed = True
     return n
 
 
